@@ -27,7 +27,12 @@ def _names(rng, cfg):
     n_o, n_p, n_shared = cfg['n_obj_names'], cfg['n_prop_names'], cfg['n_shared']
     if cfg['long_names']:
         alphabet = 'abcdefghijklmnopqrstuvwxyzäöüß0123456789 _-+X.|#'
-        mk = lambda: ''.join(rng.choice(alphabet) for _ in range(rng.randint(1, 6))).strip() or 'q'  # noqa: E731
+        def mk():
+            # any string is a legal name of a Definition, also with blanks at either end or differing only there
+            n = ''.join(rng.choice(alphabet) for _ in range(rng.randint(1, 6)))
+            if rng.random() < 0.25 and pool:
+                n = rng.choice([' {}', '{} ', ' {} ', '{}\t']).format(rng.choice(pool).strip() or 'q')
+            return n or 'q'
         pool = []
         while len(pool) < n_o + n_p:
             n = mk()
